@@ -131,3 +131,43 @@ pub fn derive_rust(rust: String) -> DeriveOut {
 pub fn derive_def(def: &DefSpec) -> DeriveOut {
     derive_rust(render(def))
 }
+
+/// Token-level normal form of generated code: punctuation spacing (`> ;` vs `>;`, an artefact of how
+/// the surrounding attribute was written) is ignored; everything else is kept.
+pub fn normalize_tokens(output: &str) -> String {
+    fn walk(ts: TokenStream, out: &mut String) {
+        for tt in ts {
+            match tt {
+                proc_macro2::TokenTree::Group(g) => {
+                    let (o, c) = match g.delimiter() {
+                        proc_macro2::Delimiter::Parenthesis => ("(", ")"),
+                        proc_macro2::Delimiter::Brace => ("{", "}"),
+                        proc_macro2::Delimiter::Bracket => ("[", "]"),
+                        proc_macro2::Delimiter::None => ("", ""),
+                    };
+                    out.push_str(o);
+                    out.push(' ');
+                    walk(g.stream(), out);
+                    out.push_str(c);
+                    out.push(' ');
+                }
+                proc_macro2::TokenTree::Punct(p) => {
+                    out.push(p.as_char());
+                    out.push(' ');
+                }
+                other => {
+                    out.push_str(&other.to_string());
+                    out.push(' ');
+                }
+            }
+        }
+    }
+    match output.parse::<TokenStream>() {
+        Ok(ts) => {
+            let mut s = String::new();
+            walk(ts, &mut s);
+            s
+        }
+        Err(_) => output.to_string(),
+    }
+}
